@@ -52,6 +52,9 @@ GROUPS.append(G("pars_SingleBit", "harness/C08/asmpars_kernels.c", "h_SingleBit"
 GROUPS.append(G("op_ShRightOp:finding", OPS, "h_ShRightOp", enforce=["ShRightOp"], link=LINK, stubs=STUBS,
                 only_finding="C08_SHR_NEG", timeout=120))
 
+for e in ("ModifyIntConstModeByMask", "SetIntConstRelaxedMode", "SetIntConstMode"):
+    GROUPS.append(G("int_" + e, "harness/C08/h_intformat.c", "h_" + e, enforce=[], link=[], stubs=STUBS, unwind=20, timeout=600, dfcc=False, drop_unused=True, object_bits=12,
+                    functions=[e, "SetIntConstModeByMask"], flags=["--slice-formula"]))
 TRUSTED_BASE = [
     "stubs/gerr.c: WrError/WrXError/WrStrErrorPos only count (ghost g_err_cnt, g_err_last)",
     "libm pow() replaced by a ghost stub that records its arguments",
